@@ -73,7 +73,8 @@ CORE_OPS = ['open+lookup', 'getpid', 'reply_port', 'trace-exec', 'lone-lookup', 
 
 # operations through which one thread's traces depend on another thread's records
 CROSS_ALPHABET = [('announce-500', 1), ('announce-500', 2), ('dlopen-500', 1), ('dlopen-500', 2), ('newthread-pair', 1), ('newthread-pair', 2),
-                  ('getpid@7', 1), ('exec-rename', 1), ('getpid', 1), ('getpid', 2), ('open+lookup', 2), ('terminate-7', 1)]
+                  ('getpid@7', 1), ('exec-rename', 1), ('getpid', 1), ('getpid', 2), ('open+lookup', 2), ('terminate-7', 1),
+                  ('terminate-self', 1), ('terminate-self', 2)]       # a thread goes on emitting records after its own terminate record
 
 
 V3 = [False]       # set by the 'A+' shard while it repeats the commutation check on version-3 dumps that also carry log records
@@ -214,6 +215,49 @@ def judge_commute(opseq, cfg, as_tuple):
         return ('helper-class-reported' if helper and len(got) > len(exp) else 'filtered-listing-differs-from-restricted-unfiltered',
                 {'got': [g[2] for g in got], 'expected': [g[2] for g in exp]})
     return None
+
+
+def judge_callstacks_commute():
+    """the call-stack listing under a thread / process filter = the unfiltered listing restricted to the entries of that thread /
+    process, on a dump in which samples carry thread-data records about ANOTHER thread (a sampling thread records other threads)."""
+    def R(name, q, args, tid, ts):
+        return B.rec(ts, args, tid, E.n2i(name) | q)
+
+    def sample(tid, ts, flags, about, words):
+        out = [R('PERF_Event', 1, (flags, 1, 0, 0), tid, ts)]
+        if about is not None:
+            out.append(R('PERF_THD_Data', 0, (about[0], about[1], 0, 1), tid, ts + 1))
+        out += [R('PERF_STK_UHdr', 0, (1, len(words), 0, 0), tid, ts + 2), R('PERF_STK_UData', 0, tuple(words) + (0,) * (4 - len(words)), tid, ts + 3),
+                R('PERF_Event', 2, (flags, 0, 0, 0), tid, ts + 4)]
+        return out
+    # the thread-data records repeat what the thread map says (pid of the thread they are about), so the tables do not change
+    recs = sample(1, 10, 9, (20, 2), (0x1010, 0x1020)) + sample(2, 20, 9, (20, 2), (0x2010,)) + sample(1, 30, 8, None, (0x1030,)) + \
+        sample(2, 40, 9, (10, 1), (0x2040, 0x2050)) + sample(3, 50, 9, (10, 1), (0x3010,))
+    blob = B.v2([(1, 10, 'A'), (2, 20, 'B')], 0, recs)
+    tc = tcodes()
+
+    def ask(tid, proc):
+        f = PyKdebugParser()
+        f.filter_tid, f.filter_process = tid, proc
+        out = []
+        for c in f.callstacks(io.BytesIO(blob), tc):
+            pid = f.threads_pids.get(c.tid, -1)
+            out.append((c.timestamp, c.tid, tuple(tuple(fr) for fr in c.frames), pid, f.pids_names.get(pid, '')))
+        return out
+    bad = []
+    try:
+        full = ask(None, None)
+        if [x[:2] for x in full] != [(10, 1), (20, 2), (30, 1), (40, 2), (50, 3)]:
+            bad.append(('callstack-listing-entries-not-those-of-the-emitting-threads', {'got': [x[:2] for x in full]}))
+        for tid, proc in ((1, None), (2, None), (3, None), (4, None), (None, 'A'), (None, 'B'), (None, '10'), (None, '20'), (1, 'A'), (1, 'B'), (2, '20')):
+            exp = [x for x in full if (tid is None or x[1] == tid) and (proc is None or proc in (str(x[3]), x[4]))]
+            got = ask(tid, proc)
+            if got != exp:
+                bad.append(('filtered-callstack-listing-differs-from-restricted-unfiltered', {'filter_tid': tid, 'filter_process': proc, 'got': [x[:2] for x in got], 'expected': [x[:2] for x in exp]}))
+                break
+    except Exception as ex:
+        bad.append(('callstack-request-raised:' + type(ex).__name__, {'error': repr(ex)[:200]}))
+    return bad
 
 
 REQUESTS = ['traces', 'formatted_traces', 'callstacks']
@@ -434,6 +478,9 @@ class C13(Check):
         if desc[0] == 'X':
             return self.run_cross(desc[1], acc)
         if desc[0] == 'A+':
+            for sig, detail in judge_callstacks_commute():
+                acc.violation(sig, {'kind': 'callstacks-commute'}, detail)
+            acc.case(nontrivial=True, transitions=12, state=h64('callstacks-commute'))
             return self.run_aplus(acc)
         if desc[0] == 'cli':
             return self.run_cli(acc, desc[1], desc[2])
@@ -481,6 +528,8 @@ class C13(Check):
             finally:
                 V3[0] = False
             return [(bad[0] + ':version-3-dump-with-log-records', bad[1])] if bad else []
+        if case['kind'] == 'callstacks-commute':
+            return judge_callstacks_commute()
         if case['kind'] == 'B-lazy':
             c = case['cfg']
             bad = judge_lazy(case['stream'], (c[0], c[1], tuple(c[2]), tuple(c[3])), tuple(case['requests']), case['reverse'])
